@@ -40,6 +40,10 @@ Definition kernel_ok_minmax (o : opname) (c : ocfg) : bool :=
           && tcfg_symmetric w && negb (ocfg_explicit_dequantize c)
           && ((Z.eqb (tcfg_num_bits w) 8 && op_in o k_srq_w8_ops)
               || (Z.eqb (tcfg_num_bits w) 4 && op_in o k_srq_w4_ops))
+          (* the integer batch-matmul kernels take ONE scale for the constant
+             operand: per-channel parameters run but yield all zeros (observed, F21) *)
+          && negb (opname_eqb o Op_BATCH_MATMUL
+                   && granularity_eqb (tcfg_granularity w) Gr_CHANNELWISE)
       | Prec_INTEGER, None =>            (* dynamic range *)
           tcfg_symmetric w && negb (ocfg_explicit_dequantize c)
           && ((Z.eqb (tcfg_num_bits w) 8 && op_in o k_drq_w8_ops)
